@@ -136,7 +136,7 @@ type twinHost struct {
 
 func (t *twinHost) get(eng int) *world {
 	if t.w[eng] == nil {
-		t.w[eng] = newWorld(false, eng, false, [nMods]bool{true, true, true, true, true, true, true, true, true}, 0, false)
+		t.w[eng] = newWorld(false, eng, false, [nMods]bool{true, true, true, true, true, true, true, true, true}, 0, false, 0)
 	}
 	return t.w[eng]
 }
@@ -176,6 +176,7 @@ type twinTrace struct {
 // same calls to give the same answers.
 func runTwin(tw *world, h history, ps state) (tt twinTrace) {
 	tt.probes = map[string]string{}
+	tw.shape = h.Init.Shape // which binary of R the persistent twin instantiates
 	for _, c := range h.Init.Mods {
 		if r := tw.do(op{K: kInst, X: modIndex(byte(c))}); r != "ok" {
 			fw.Fatalf("twin: initial graph %q: instantiate %c: %s", h.Init.Mods, c, r)
@@ -198,7 +199,7 @@ func runTwin(tw *world, h history, ps state) (tt twinTrace) {
 			if ps.Inst[x] == instNone || ps.Drop[x] || tw.inst[x] == nil {
 				continue
 			}
-			for _, fn := range probeFns[x] {
+			for _, fn := range probesOf(ps, x) {
 				for mode, sfx := range probeModes {
 					tt.probes[modNames[x]+"."+fn+sfx+"#"+phase] = tw.probe(x, fn, uint64(mode))
 				}
@@ -227,7 +228,7 @@ func execHistory(h history, eng int, mark func(step int, site, phase string)) (r
 			need[o.X] = true
 		}
 	}
-	w := newWorld(true, eng, h.Init.NoCache, need, h.compileOrder(), h.Init.HostVia)
+	w := newWorld(true, eng, h.Init.NoCache, need, h.compileOrder(), h.Init.HostVia, h.Init.Shape)
 	tainted := false
 	defer func() {
 		w.teardown()
@@ -354,7 +355,7 @@ func execHistory(h history, eng int, mark func(step int, site, phase string)) (r
 			if s.Inst[x] == instNone || s.Drop[x] {
 				continue
 			}
-			for _, fn := range probeFns[x] {
+			for _, fn := range probesOf(s, x) {
 				for mode, sfx := range probeModes {
 					site := modNames[x] + "." + fn + sfx
 					mark(len(h.Ops), site, phase)
@@ -409,6 +410,9 @@ func modStatus(s state, x int) string {
 	}
 	if s.Drop[x] {
 		st += "+dropped"
+	}
+	if x == mR && s.Shape != 0 {
+		st += ",module-shape=" + shapeDefs[s.Shape].Name
 	}
 	return st
 }
